@@ -118,6 +118,8 @@ MAIN_V = {
     'v0': 'from c04pool.m1 import make1\n\ndef run(n: int) -> int:\n\tx = make1(n)\n\treturn x.get()\n',
     'v1': 'from c04pool.m3 import make, wide\n\ndef run(n: str) -> str:\n\tx = make(n)\n\tw = wide(1, \'a\', 1.5, True, 2, \'b\', 2.5, False, 3, \'c\', 4)\n\treturn x.get()\n',
     'bad': 'def run(n: int) -> int:\n\treturn (n +\n',
+    # loads, fails while it is transpiled (in the middle of a run of the long-lived transpiler and its procedures)
+    'ill': 'from c04pool.m1 import make1\n\ndef run(n: int) -> int:\n\tx = make1(n)\n\ty = [zz_undefined(v) for v in [x.get()]]\n\treturn y[0]\n',
 }
 POOL = {'c04pool.m0': M0, 'c04pool.m1': M1, 'c04pool.m2': M2, 'c04pool.m3': M3}
 MODS = list(POOL)
